@@ -18,6 +18,12 @@ pub mod serde2;
 pub mod wheel;
 
 pub fn dispatch(ctx: &mut Ctx) {
+    // monitors that run several random-case loops one after another share the time budget between them
+    ctx.sections = match ctx.prop.as_str() {
+        "C13" => 3,
+        "C05" | "C06" | "C10" | "C11" | "C20" | "C25" | "C32" => 2,
+        _ => 1,
+    };
     match ctx.prop.as_str() {
         "C01" => logs::run_c01(ctx),
         "C09" => logs::run_c09(ctx),
@@ -58,6 +64,7 @@ pub fn dispatch(ctx: &mut Ctx) {
 macro_rules! random_cases {
     ($ctx:expr, $n:expr, |$r:ident, $i:ident| $body:block) => {{
         let n: u64 = $n;
+        $ctx.begin_random_section();
         for $i in 0..n {
             if $ctx.only_case.is_none() && $ctx.out_of_time() {
                 $ctx.count("stopped_by_time_budget");
